@@ -44,19 +44,19 @@ CHECKS = {
             'Every parameter tree to depth 2 x outer types (prefix-named, same-named in two modules, JSON cache format, protocol-2 pickle, post_init, uncached) cached in storages shared by all of them plus a foreign-format entry; every single-type and several multi-type cached_tasks queries must return exactly the cached tasks of that type once, equal, same key, stored result_meta; re-running them loads without executing. In-memory storage plus LocalStorage and fsspec-local slices.',
             'Trusted: ground truth of what was cached comes from the run() bodies recording their own cache_key.', 'E5', '5/C09'),
     'C15': (EX, 'small-scope exhaustive enumeration of supported and unsupported parameter trees x pickle protocols',
-            'Every supported tree: normalisation at every depth, frozen, hashable, spelling-independent equality/hash, cross-type inequality, dependency set equal to an independent finder, serialisable; for every pickle protocol the copy is equal, same hash/key/dependencies, carries post_init-derived state and no results/context (the original carried all three). Every supported tree of depth <=2 with one position replaced by an unsupported value or non-string dict key must raise TaskError.',
+            'Every supported tree: normalisation at every depth, frozen, hashable, spelling-independent equality/hash, cross-type inequality, dependency set equal to an independent finder, serialisable; for every pickle protocol the copy is equal, same hash/key/dependencies, carries post_init-derived state and no results/context (the original carried all three). Every supported tree of depth <=2 with one position replaced by an unsupported value or non-string dict key must raise TaskError. Plus task types with ClassVar attributes, a derived type adding a parameter, a post_init that canonicalises a parameter (equal tasks hash equally) and collection objects changed between constructions.',
             'Trusted: independent dependency finder and canonical form.', 'E5', '5/C15'),
     'C06': (EX, 'exhaustive enumeration of a finite history x configuration space: run -> is_cached -> run over value/shape/clock alphabets and all backend pairs',
             'In-process: every (type, parameter tree, clock) item is executed, then re-requested through a fresh Lab and fresh equal task objects: equal value, no run(), result_meta exactly the recorded start/duration (fake datetime alphabet incl. 0, 1 us, 0.1+0.2 s, 1 day + 1 us), value embeds the identity of its task. Cross-process: all 9 ordered pairs of serial/fork/spawn with both runs in fresh interpreters under different hash seeds over one LocalStorage directory.',
             'Real fork/spawn runs are real executions of an enumerated finite list, not schedule-exhaustive; values compared through repr across processes.', 'E5+E4', '5/C06'),
     'C08': (MC, 'explicit-state BFS over histories of Lab operations against a dict reference model, canonical-state de-duplication',
-            'Breadth-first search (depth 3 quick / 4 thorough on in-memory storage; 2/3 on LocalStorage, fsspec-local, NullStorage; PickleCache, protocol-2 PickleCache and a JSON cache format) over run_tasks / run_tasks(bust_cache) / uncache_tasks on every subset of size <=2 of a 5-task universe with dependencies and a cache=None type. Every transition replays the real Lab from the empty storage and compares return value, executed set, is_cached of all tasks, cached_tasks for 4 type lists, the complete storage listing and a read-back on a copy with the model.',
+            'Breadth-first search (depth 3 quick / 4 thorough on in-memory storage; 2/3 on LocalStorage, fsspec-local, NullStorage; PickleCache, protocol-2 PickleCache and a JSON cache format) over run_tasks / run_tasks(bust_cache) / uncache_tasks on every subset of size <=2 of a 5-task universe with dependencies and a cache=None type. Every transition replays the real Lab from the empty storage and compares return value, executed set, is_cached of all tasks, cached_tasks for 4 type lists, the complete storage listing and a read-back on a copy with the model. Also storage directories given as relative paths (local, fsspec) with the caller\'s working directory changing between the operations.',
             'Trusted: a Lab keeps no state between calls other than the storage (fresh Lab/task objects per operation); canonical form renames epochs by order of appearance.', 'E7', '5/C08'),
     'C18': (EX, 'small-scope exhaustive enumeration of key/filename strings x operations x layouts with before/after sandbox snapshots and an audit hook',
-            'All strings of <=2 (quick) / <=3 (thorough) segments from 18 adversarial segments joined by / or \\ as key and as filename x exists / delete / file_handle in 8 modes x 4 pre-existing layouts (symlinks to outside, to a sibling key, dangling, symlinked file inside a key dir, storage reached through a symlink). After every operation nothing outside the storage directory changed or was opened, and changes are confined to one direct child and files directly inside it.',
+            'All strings of <=2 (quick) / <=3 (thorough) segments from 18 adversarial segments joined by / or \\ as key and as filename x exists / delete / file_handle in 8 modes x 4 pre-existing layouts (symlinks to outside, to a sibling key, dangling, symlinked file inside a key dir, storage reached through a symlink). After every operation nothing outside the storage directory changed or was opened, and changes are confined to one direct child and files directly inside it. Permission bits are part of the snapshot; storage objects whose directory (with its parent) was removed after construction are exercised too.',
             'Reads are observed through audit events with absolute paths; dir_fd-relative events inside rmtree are judged by the snapshot diff only.', 'E5', '5/C18'),
     'C20': (EX, 'small-scope exhaustive enumeration of task graphs; diagram text parsed back and compared with an independent traversal',
-            'Task graphs over 4 typed task types with scalar / single-task / list / dict / nested-collection parameters to depth 2 (quick) / 3 (thorough) plus pairs of tasks differing in single-vs-collection use of a parameter: class blocks = reachable types once each with all parameters and the run signature; arrows = reference (dependent, parameter, dependency) set once each with the right many flag; identical text on rebuild and in fresh interpreters under other hash seeds.',
+            'Task graphs over 4 typed task types with scalar / single-task / list / dict / nested-collection parameters to depth 2 (quick) / 3 (thorough) plus pairs of tasks differing in single-vs-collection use of a parameter: class blocks = reachable types once each with all parameters and the run signature; arrows = reference (dependent, parameter, dependency) set once each with the right many flag; identical text on rebuild and in fresh interpreters under other hash seeds. Also falsy task objects (a sized task of length 0) and types whose string annotations no module global resolves.',
             'Trusted: the line-form parser in props/c20.py.', 'E5', '5/C20'),
     'C12': (FE, 'exhaustive single-fault injection at every storage operation and every executed line of the save path, recovery oracle on a fresh Lab',
             'One real serial-backend run per injection point: every file_handle-for-write, every write() call and every close() of the save (raise; thorough: also partial write), every LINE event of cache.py/storage.py/serialization.py inside BaseCache.save, and results that cannot be serialised before/after one/after many frames; x PickleCache and a JSON cache format x small and multi-frame results x first save and overwrite. Afterwards a fresh Lab must either not report the task (is_cached, cached_tasks) or load a correct value without executing; cached_tasks must not raise.',
@@ -65,7 +65,7 @@ CHECKS = {
             'The real save runs over a logging raw-file layer; every prefix of the mkdir/open/write/close log, three torn variants of every write and the all-bytes-flushed variant at every Python-level write call are materialised (first save: empty dir; overwrite: on a copy of the complete old entry) and checked by the recovery oracle (old or new value acceptable after overwrite). The log is validated by replaying it to the real final directory and by real SIGKILLs of a forked saver at traced lines, whose leftovers must equal a materialised prefix.',
             'Process kills only (completed write() calls survive); LocalStorage; pickle and JSON cache formats.', 'E6', '5/C13'),
     'C19': (MC, 'stateless exhaustive exploration of result-delivery and log-queue-delivery schedules of the real ProcessRunner over a virtual multiprocessing layer',
-            'Real fork and spawn ProcessRunner + ProcessExecutor + coordinator over virtual processes whose queue puts, exit-time flushes and exits are committed lazily under explorer control: every schedule of which child has progressed how far at every parent-side observation, for 2 tasks (independent and chained; thorough: 3 tasks) x every pair of print/flush/logger/stderr emit patterns x max_workers {1,2}. When run_tasks returns each emitted fragment must have been received exactly once by a handler on labtech.logger.',
+            'Real fork and spawn ProcessRunner + ProcessExecutor + coordinator over virtual processes whose queue puts, exit-time flushes and exits are committed lazily under explorer control: every schedule of which child has progressed how far at every parent-side observation, for 2 tasks (independent and chained; thorough: 3 tasks) x every pair of print/flush/logger/stderr emit patterns x max_workers {1,2}. When run_tasks returns each emitted fragment must have been received exactly once by a handler on labtech.logger. Emit alphabet includes output printed by a helper thread, a task-installed wrapper left around sys.stdout, carriage returns, records below the caller\'s level, and a caller whose labtech logger is at NOTSET under a root logger at INFO.',
             'Trusted: the virtual layer models multiprocessing at the granularity of labtech\'s observations (validated against real fork/spawn runs by the real-backend checks); per-drain reduction of log-queue delivery order is exact for a count oracle.', 'E1+E3', '5/C19'),
     'C16': (EX, 'exhaustive enumeration of a finite configuration space (DAG x context filter x backend) with context recorded inside run(), virtual-OS start-method ground truth and real-process runs',
             'Context: inside run() self.context equals filter_context(lab.context) for every DAG shape n<=3 x identity/per-parameter filters x 3 contexts x cold/pre-cached, on the coordinator seam, the real SerialRunner and the real fork/spawn ProcessRunner over the virtual OS; keys and every stored byte are identical under two different contexts (fixed clock) and a sentinel context value occurs in no stored file. Process model: the start method requested for every virtual worker, and real serial/fork/spawn runs x max_workers x DAG reporting pid, parent pid, thread, start method and a parent-mutated module global from inside run().',
